@@ -128,7 +128,9 @@ SPEC ex_t e_add_2exp(T_u x, uint32_t e) { return x_num(x) + pow2(capexp(e, CAP_A
 SPEC ex_t e_sub_2exp(T_u x, uint32_t e) { return x_num(x) - pow2(capexp(e, CAP_ADD)); }
 /* x * 2^e as a shift of the two's-complement image (no overflow: |x| * 2^CAP_MUL fits ex_t) */
 SPEC ex_t shl_ex(ex_t a, uint32_t e) {
-#if EX_W == 64
+#if EX_W == 32
+  return (ex_t)((uint32_t)a << e);
+#elif EX_W == 64
   return (ex_t)((uint64_t)a << e);
 #else
   return (ex_t)((unsigned __int128)a << e);
